@@ -116,7 +116,7 @@ PROPS = {
     },
     "C02": {
         "batches": lambda tier: conn_batches([("c02", 400), ("mixed", 150), ("long", 3)], [("c02", 6000), ("mixed", 2000), ("long", 9)])(tier)
-                   + ctl_batches("vanishdata", 60, 1500, per=60)(tier),
+                   + ctl_batches("vanishdata", 60, 1500, per=60)(tier) + ctl_batches("midline", 60, 1500, per=60)(tier),
         "replay_bin": "pristine", "need": ["heads", "seq", "addr", "nohang"], "agr_need": ["heads", "seq"],
         "rule": "grammar-directed request heads (nine methods + extension tokens incl. lower-case, visible-ASCII targets, 1.0/1.1, 0..64 headers with duplicates, "
                 "empty values, colons and inner whitespace, lines > 1 KiB, heads > 64 KiB, random OWS) sent over loopback TCP and UNIX sockets; delivered "
@@ -167,7 +167,7 @@ PROPS = {
         "partial": [], "assumptions": CONN_ASSUMPTIONS,
     },
     "C18": {
-        "batches": conn_batches([("c18", 500), ("hold", 100)], [("c18", 6000), ("hold", 1000)]),
+        "batches": conn_batches([("c18", 500), ("hold", 100), ("c10", 100)], [("c18", 6000), ("hold", 1000), ("c10", 600)]),
         "replay_bin": "pristine", "need": ["wire", "bodies", "seq", "nohang", "hold"], "agr_need": ["wire", "bodies", "seq", "hold"],
         "rule": "Expect: 100-continue present/absent (letter case) x body length {0,1,10,1024,1025,3000} x Content-Length/chunked x programs {answer without reading, "
                 "as_reader once / several times, partial read, over-read} with a client that withholds the body until the server has sent something",
